@@ -66,7 +66,7 @@ type cmpWorld struct {
 	m      *mvcc
 	x      *mc.SeqOut
 	prop   string
-	record uint64 // expected stored compaction record (0 = none yet)
+	record uint64  // expected stored compaction record (0 = none yet)
 	creqs  []int64 // every compaction request made so far (part of the canonical state: an
 	// implementation may remember requests, not only their effect)
 	inRange func(key string) bool
@@ -416,8 +416,8 @@ func init() {
 		Level: "model_checking",
 		Rule: "explicit-state BFS over sequences of writes on 2 keys and compaction requests (revision 0, every revision up to the depth, above the current revision; hence increasing, repeated, decreasing orders), de-duplicated on model state + rank-normalised storage; " +
 			"after every step List, limited List and streamed range are issued at every revision from the first to the committed one: refused below the highest accepted compaction revision, served at or above it; the stored compaction record must equal that floor",
-		Assume:  []string{"single client, default schedule, quiescence after every request", "in-memory engine (thorough: badger and tikv-mock at depth 3)"},
-		Exec: func(j *mc.Job) *mc.JobResult { return mc.SeqExec(j, c08Run(j.Tier)) },
+		Assume: []string{"single client, default schedule, quiescence after every request", "in-memory engine (thorough: badger and tikv-mock at depth 3)"},
+		Exec:   func(j *mc.Job) *mc.JobResult { return mc.SeqExec(j, c08Run(j.Tier)) },
 		Drive: func(c *mc.Ctx) {
 			if c.Tier == "thorough" {
 				driveCompactBFS(c, []int{0, 3, 4})
